@@ -1,5 +1,6 @@
 import Comdex.Base.Line
 import Comdex.Model.Gauge
+import Comdex.Model.ExtReward
 /-! Driver plug-in for the gauge / incentive-payout model (property C19).  Core Lean only.
 
 Pure lines (no sequence):
@@ -9,25 +10,29 @@ Pure lines (no sequence):
 Sequence lines:
   gauge.begin   minDur
   gauge.sfgauge gid denom dur now               -- swap-fee gauge created by pool creation (creates the epoch record)
+  gauge.sfxfer  gid <ok|err> amount             -- result of the real TransferFundsForSwapFeeDistribution for this gauge in this block
   gauge.create  gid denom deposit total start now dur funds aux <ok|err> <ok:csv|panic|none>   -- last: real split(deposit,total)
   gauge.fund    denom amount
-  gauge.extnew  eid denom amount funds <ok|err>
+  gauge.xnew    kind eid denom amount days minLock now first funds aux <ok|err>   -- external programme (kind L locker, V vault, B lend); now in s
   gauge.block   now
   gauge.dist    gid alloc mode mpos cpos <ok|err|panic> recv rewards      -- inputs and result of the real share computation
-  gauge.extpay  eid avail daysLeft totalShare nets recv paid             -- one external-programme payout in this block
-  gauge.extoff  eid
+  gauge.xshare  kind eid halt totalShare users                            -- per programme (L, V), store order: users `amt:created:recv,…`
+  gauge.xlend   eid halt stats asset quote base borrowers rewardAsset reward   -- per lend programme: prices `found:active:twa:dec`,
+                                                                          -- borrowers `liq:amt:farmed:x:y:recv;…`
   gauge.run     <ok>                            -- the real BeginBlocker ran; the model block is executed here
   gauge.epochs  dur:cur:count:fresh;…           -- real records after the block (compared + monitored)
   gauge.gauges  gid:denom:dep:dist:trig:total:act:sf:dur:start;…
-  gauge.exts    eid:denom:avail:act;…
+  gauge.xprogs  kind:eid:denom:total:avail:days:minLock:act:start:count;…
   gauge.bals    denom:amt;…
   gauge.paid    denom:farmer:amt;…
 Monitors (on REAL values): split_sum zero_epochs epoch_cap cumulative_cap farmer_share farmer_share_1e12 custody
-  custody_ext_overpaid float_hyp
+  custody_ext_overpaid float_hyp ext_epoch_cap ext_epoch_bound ext_cumulative_cap ext_available_nonneg ext_schedule
+  ext_share_total ext_lend_value_as_amount ext_lend_truncated_total
 -/
 -- DRIVER: prefix=gauge ns=Comdex.Drv.Gauge
 namespace Comdex.Drv.Gauge
 open Comdex Comdex.Gauge Comdex.Line
+open Comdex.ExtReward (Prog Outcome ShareEnv LendEnv User Price Borrower Acc)
 
 structure GRec where
   gid : Nat
@@ -38,10 +43,14 @@ structure GRec where
   deriving Repr, DecidableEq
 
 structure XRec where
+  kind : String
   eid : Nat
   denom : String
-  x : Ext
+  p : Prog
+  cum : Int := 0            -- what the REAL record booked as paid so far (sum of the AvailableRewards decreases)
   deriving Repr, DecidableEq
+
+def XRec.x (r : XRec) : Ext := { avail := r.p.avail, active := r.p.active }
 
 structure DistIn where
   gid : Nat
@@ -49,10 +58,30 @@ structure DistIn where
   recv : List Nat
   deriving Repr
 
-structure ExtIn where
+structure ShareIn where
+  kind : String
   eid : Nat
-  pays : List Int
+  env : ShareEnv
   recv : List Nat
+  deriving Repr
+
+structure LendIn where
+  eid : Nat
+  env : LendEnv
+  recv : List Nat          -- per borrower, parallel to `env.borrowers`
+  deriving Repr
+
+/-- outcome of one programme in the model block, with what the monitors need -/
+structure XOut where
+  kind : String
+  eid : Nat
+  o : Outcome
+  recv : List Nat          -- parallel to the pays
+  nElig : Nat := 0         -- L, V: eligible positions
+  sumElig : Int := 0       -- L, V: sum of their amounts
+  total : Int := 0         -- L, V: total share
+  acc : Acc := Acc.empty   -- B: the accumulator the payout was computed from
+  daily : Int := 0         -- B: `dailyRewardAmt`
   deriving Repr
 
 structure St where
@@ -63,8 +92,12 @@ structure St where
   epochs : List Epoch := []
   now : Int := 0
   dists : List DistIn := []
-  extIns : List ExtIn := []
-  extOffs : List Nat := []
+  sfx : List (Nat × Xfer) := []                    -- outcome of the swap-fee transfer per swap-fee gauge reached in this block
+  leaked : List (String × Int) := []               -- per denomination: coins paid by swap-fee triggers that were not booked (D37), cumulative
+  leakNow : List (String × Int) := []              -- … in the current block
+  shareIns : List ShareIn := []
+  lendIns : List LendIn := []
+  xouts : List XOut := []
   -- state before the current block (for the per-block monitors) and predictions for the lines after `gauge.run`
   prevGs : List GRec := []
   prevXs : List XRec := []
@@ -125,9 +158,11 @@ def parseG : List String → Option GRec
   | _ => none
 
 def parseX : List String → Option XRec
-  | [eid, denom, avail, act] => do
-    let eid ← parseNat? eid; let avail ← parseInt? avail; let act ← parseBool? act
-    pure { eid := eid, denom := denom, x := { avail := avail, active := act } }
+  | [kind, eid, denom, total, avail, days, minLock, act, start, count] => do
+    let eid ← parseNat? eid; let total ← parseInt? total; let avail ← parseInt? avail; let days ← parseInt? days
+    let minLock ← parseInt? minLock; let act ← parseBool? act; let start ← parseInt? start; let count ← parseNat? count
+    pure { kind := kind, eid := eid, denom := denom,
+           p := { total := total, avail := avail, days := days, minLock := minLock, active := act, start := start, count := count } }
   | _ => none
 
 def parseE : List String → Option Epoch
@@ -147,7 +182,14 @@ def parsePaid : List String → Option (String × Nat × Int)
 def showG (r : GRec) : String :=
   s!"{r.gid}:{r.denom}:{r.g.deposit}:{r.g.distributed}:{r.g.triggered}:{r.g.total}:{r.g.active}"
 def showE (e : Epoch) : String := s!"{e.dur}:{e.cur}:{e.count}:{e.fresh}"
-def showX (r : XRec) : String := s!"{r.eid}:{r.denom}:{r.x.avail}:{r.x.active}"
+def showX (r : XRec) : String :=
+  s!"{r.kind}:{r.eid}:{r.denom}:{r.p.total}:{r.p.avail}:{r.p.days}:{r.p.minLock}:{r.p.active}:{r.p.start}:{r.p.count}"
+def kindRank (k : String) : Nat := if k = "L" then 0 else if k = "V" then 1 else 2
+
+/-- the order of the begin blocker: lockers, vaults, lends, each by id -/
+def sortXs (l : List XRec) : List XRec :=
+  (l.toArray.qsort (fun a b => kindRank a.kind < kindRank b.kind || (kindRank a.kind = kindRank b.kind && a.eid < b.eid))).toList
+
 def showPaid (p : String × Nat × Int) : String := s!"{p.1}:{p.2.1}:{p.2.2}"
 
 /-! ### monitors on real values -/
@@ -189,6 +231,8 @@ def floatHypOn (raw : Int) (bits : Nat) : Bool :=
 /-! ### the model block -/
 
 def gaugesOf (st : St) (d : String) : List GRec := st.gs.filter (fun r => r.denom = d && !r.sf)
+def sfsOf (st : St) (d : String) : List GRec := st.gs.filter (fun r => r.denom = d && r.sf)
+def toSf (r : GRec) : SfGauge := { deposit := r.g.deposit, distributed := r.g.distributed, triggered := r.g.triggered }
 def extsOf (st : St) (d : String) : List XRec := st.xs.filter (·.denom = d)
 
 def idxOf (l : List Nat) (x : Nat) : Option Nat :=
@@ -205,13 +249,29 @@ def stepEpochs (es : List Epoch) (now : Int) : List Epoch × List Int :=
 
 def distFor (st : St) (gid : Nat) : Option DistIn := st.dists.find? (·.gid = gid)
 
+def idxOfKey (l : List (String × Nat)) (x : String × Nat) : Option Nat :=
+  let rec go : List (String × Nat) → Nat → Option Nat
+    | [], _ => none
+    | y :: ys, i => if y = x then some i else go ys (i + 1)
+  go l 0
+
 /-- the begin-blocker ops of one denomination, in the order the real code executes them, or a BAD message -/
 def blockOps (st : St) (d : String) (trigDurs : List Int) : Except String (List BOp) := do
   let mine := gaugesOf st d
   let gids := mine.map (·.gid)
+  let sfids := (sfsOf st d).map (·.gid)
   let mut ops : List BOp := []
   for dur in trigDurs do
     for r in st.gs do
+      if r.dur = dur && r.denom = d && r.sf then
+        match idxOf sfids r.gid with
+        | none => throw "swap-fee gauge index"
+        | some i =>
+          let dd := match distFor st r.gid with | some di => di.d | none => DistData.err
+          if r.g.deposit > 0 && (distFor st r.gid).isNone then throw s!"no gauge.dist line for swap-fee gauge {r.gid}"
+          match st.sfx.find? (·.1 = r.gid) with
+          | none => throw s!"no gauge.sfxfer line for swap-fee gauge {r.gid}"
+          | some (_, x) => ops := ops ++ [BOp.sfTrigger i dd x]
       if r.dur = dur && r.denom = d && !r.sf then
         match idxOf gids r.gid with
         | none => throw "gauge index"
@@ -223,25 +283,46 @@ def blockOps (st : St) (d : String) (trigDurs : List Int) : Except String (List 
             | .error _ => false
           if needs && (distFor st r.gid).isNone then throw s!"no gauge.dist line for gauge {r.gid}"
           ops := ops ++ [BOp.trigger i st.now dd]
-  let xids := (extsOf st d).map (·.eid)
-  for x in st.extIns do
-    match idxOf xids x.eid with
+  let xkeys := (extsOf st d).map (fun r => (r.kind, r.eid))
+  for x in st.xouts do
+    match idxOfKey xkeys (x.kind, x.eid) with
     | none => pure ()
-    | some j => ops := ops ++ [BOp.extPay j x.pays]
-  for e in st.extOffs do
-    match idxOf xids e with
-    | none => pure ()
-    | some j => ops := ops ++ [BOp.extDeactivate j]
+    | some j =>
+      match x.o with
+      | .pay pays => ops := ops ++ [BOp.extPay j pays]
+      | .off => ops := ops ++ [BOp.extDeactivate j]
+      | .skip => pure ()
   return ops
 
 def ledgerOf (st : St) (d : String) : Ledger :=
-  { bal := lookupBal st.bals d, gauges := (gaugesOf st d).map (·.g), exts := (extsOf st d).map (·.x) }
+  { bal := lookupBal st.bals d, gauges := (gaugesOf st d).map (·.g), exts := (extsOf st d).map (·.x), sfs := (sfsOf st d).map toSf }
+
+/-- coins a swap-fee trigger of this block pays without booking them (`sfLeak`), per the model run on the block's inputs -/
+def leakOf (st : St) (d : String) (trigDurs : List Int) : Int :=
+  trigDurs.foldl (fun acc dur =>
+    st.gs.foldl (fun acc r =>
+      if r.dur = dur && r.denom = d && r.sf then
+        let dd := match distFor st r.gid with | some di => di.d | none => DistData.err
+        match st.sfx.find? (·.1 = r.gid) with
+        | some (_, .err) => (match sfTrigger (toSf r) dd .err with | .ok (_, sends, _) => acc + sumL sends | .error _ => acc)
+        | _ => acc
+      else acc) acc) 0
 
 /-- predicted per-farmer payouts of one denomination (sends in execution order against the running balance) -/
 def paidOf (st : St) (d : String) (trigDurs : List Int) : List (Nat × Int) :=
   let step1 := trigDurs.foldl (fun (acc : Int × List (Nat × Int)) dur =>
     st.gs.foldl (fun (acc : Int × List (Nat × Int)) r =>
-      if r.dur = dur && r.denom = d && !r.sf then
+      if r.dur = dur && r.denom = d && r.sf then
+        match distFor st r.gid, st.sfx.find? (·.1 = r.gid) with
+        | some di, some (_, x) =>
+          match sfTrigger (toSf r) di.d x with
+          | .ok (_, sends, recv) =>
+            let (b, got) := sendAll acc.1 sends
+            (b + recv, acc.2 ++ di.recv.zip got)
+          | .error _ => acc
+        | none, some (_, .ok amt) => (acc.1 + amt, acc.2)
+        | _, _ => acc
+      else if r.dur = dur && r.denom = d && !r.sf then
         match distFor st r.gid with
         | none => acc
         | some di =>
@@ -251,11 +332,14 @@ def paidOf (st : St) (d : String) (trigDurs : List Int) : List (Nat × Int) :=
             (b, acc.2 ++ di.recv.zip got)
           | .error _ => acc
       else acc) acc) (lookupBal st.bals d, [])
-  let xids := (extsOf st d).map (·.eid)
-  let step2 := st.extIns.foldl (fun (acc : Int × List (Nat × Int)) x =>
-    if xids.contains x.eid then
-      let (b, got) := sendAll acc.1 x.pays
-      (b, acc.2 ++ x.recv.zip got)
+  let xkeys := (extsOf st d).map (fun r => (r.kind, r.eid))
+  let step2 := st.xouts.foldl (fun (acc : Int × List (Nat × Int)) x =>
+    if xkeys.contains (x.kind, x.eid) then
+      match x.o with
+      | .pay pays =>
+        let (b, got) := sendAll acc.1 pays
+        (b, acc.2 ++ x.recv.zip got)
+      | _ => acc
     else acc) step1
   step2.2
 
@@ -267,8 +351,58 @@ def mergePaid (l : List (String × Nat × Int)) : List (String × Nat × Int) :=
 def sortPaid (l : List (String × Nat × Int)) : List (String × Nat × Int) :=
   (l.toArray.qsort (fun a b => a.1 < b.1 || (a.1 = b.1 && a.2.1 < b.2.1))).toList
 
+/-! ### external programmes in the model block -/
+
+def nowSec (st : St) : Int := st.now / 1000000000
+
+/-- receivers of the entries a lend programme appends to `addrArr` (borrowers that get a weight) -/
+def lendRecvs (e : LendEnv) (recv : List Nat) : List Nat :=
+  ((e.borrowers.zip recv).filter (fun br => (ExtReward.borrowerWeight e br.1).isSome)).map (·.2)
+
+/-- the three distribution functions on the programmes of this state, in the order of the begin blocker; `none` = a model
+panic (the whole begin blocker is rolled back); a missing input line is a protocol error -/
+def xBlock (st : St) : Except String (Option (List XOut)) := do
+  let now := nowSec st
+  let progsOf (k : String) := st.xs.filter (·.kind = k)
+  let mut outs : List XOut := []
+  for k in ["L", "V"] do
+    let ins := st.shareIns.filter (·.kind = k)
+    let ps := progsOf k
+    if ins.map (·.eid) ≠ ps.map (·.eid) then throw s!"gauge.xshare lines of kind {k} do not match the programmes"
+    let pes := (ps.zip ins).map (fun (r, i) => (r.p, i.env))
+    match ExtReward.shareBlock now pes with
+    | .error _ => return none
+    | .ok os =>
+      for ((r, i), o) in (ps.zip ins).zip os do
+        let el := i.env.users.filter (ExtReward.eligible r.p now)
+        outs := outs ++ [{ kind := k, eid := r.eid, o := o, recv := i.recv, nElig := el.length,
+                           sumElig := sumL (el.map (·.amt)), total := i.env.total }]
+  let ps := progsOf "B"
+  if st.lendIns.map (·.eid) ≠ ps.map (·.eid) then throw "gauge.xlend lines do not match the programmes"
+  let pes := (ps.zip st.lendIns).map (fun (r, i) => (r.p, i.env))
+  let tr := ExtReward.lendBlock now pes Acc.empty
+  let mut prevLen := 0
+  let mut recvs : List Nat := []
+  for ((r, i), (a, o)) in (ps.zip st.lendIns).zip tr do
+    if a.ws.length > prevLen then recvs := recvs ++ lendRecvs i.env i.recv
+    prevLen := a.ws.length
+    let daily := match ExtReward.value i.env.reward r.p.avail with
+      | some t => ExtReward.lendDaily r.p t
+      | none => 0
+    outs := outs ++ [{ kind := "B", eid := r.eid, o := o, recv := recvs, acc := a, daily := daily }]
+  return some outs
+
 /-- execute the model block; on a model panic everything (incl. the epoch clocks) stays as it was -/
-def runBlock (st : St) : St × List String :=
+def runBlock (st0 : St) : St × List String :=
+  let base := { st0 with prevGs := st0.gs, prevXs := st0.xs, prevBals := st0.bals, xouts := [] }
+  let unchanged (msgs : List String) : St × List String :=
+    ({ base with predGs := st0.gs, predXs := st0.xs, predBals := st0.bals, predEpochs := st0.epochs, predPaid := [], leakNow := [] }, msgs)
+  match xBlock st0 with
+  | .error msg => unchanged [s!"BAD\t-\t{msg}"]
+  | .ok none => unchanged []
+  | .ok (some xouts) =>
+  let st := { st0 with xouts := xouts }
+  let base := { base with xouts := xouts }
   let (es', trigDurs) := stepEpochs st.epochs st.now
   let ds := denomsOf st
   let res : Except String (List (String × Ledger) × Bool) := ds.foldlM (fun (acc : List (String × Ledger) × Bool) d => do
@@ -276,38 +410,61 @@ def runBlock (st : St) : St × List String :=
     match runB (ledgerOf st d) ops with
     | .ok l' => pure (acc.1 ++ [(d, l')], acc.2)
     | .error _ => pure (acc.1, true)) ([], false)
-  let base := { st with prevGs := st.gs, prevXs := st.xs, prevBals := st.bals }
   match res with
-  | .error msg => ({ base with predGs := st.gs, predXs := st.xs, predBals := st.bals, predEpochs := st.epochs, predPaid := [] },
-                   [s!"BAD\t-\t{msg}"])
-  | .ok (_, true) =>
-    ({ base with predGs := st.gs, predXs := st.xs, predBals := st.bals, predEpochs := st.epochs, predPaid := [] }, [])
+  | .error msg => unchanged [s!"BAD\t-\t{msg}"]
+  | .ok (_, true) => unchanged []
   | .ok (ls, false) =>
     let predGs := st.gs.map (fun r =>
-      if r.sf then r else
       match ls.find? (·.1 = r.denom) with
       | none => r
       | some (_, l) =>
+        if r.sf then
+          match idxOf ((sfsOf st r.denom).map (·.gid)) r.gid with
+          | none => r
+          | some i => match l.sfs[i]? with
+            | some g => { r with g := { r.g with deposit := g.deposit, distributed := g.distributed, triggered := g.triggered } }
+            | none => r
+        else
         match idxOf ((gaugesOf st r.denom).map (·.gid)) r.gid with
         | none => r
         | some i => match l.gauges[i]? with | some g => { r with g := g } | none => r)
+    -- the programme records: timing from `Prog.apply`; the ledger (the object of the custody theorem) must agree on the booking
+    let now := nowSec st
     let predXs := st.xs.map (fun r =>
-      match ls.find? (·.1 = r.denom) with
+      match xouts.find? (fun x => x.kind = r.kind && x.eid = r.eid) with
       | none => r
+      | some x => { r with p := r.p.apply now x.o })
+    let bad := predXs.foldl (fun out r =>
+      match ls.find? (·.1 = r.denom) with
+      | none => out
       | some (_, l) =>
-        match idxOf ((extsOf st r.denom).map (·.eid)) r.eid with
-        | none => r
-        | some j => match l.exts[j]? with | some x => { r with x := x } | none => r)
+        match idxOfKey ((extsOf st r.denom).map (fun q => (q.kind, q.eid))) (r.kind, r.eid) with
+        | none => out
+        | some j => match l.exts[j]? with
+          | some x => if x = r.x then out else out ++ [s!"BAD\t-\tledger and programme model disagree on {r.kind}{r.eid}"]
+          | none => out) []
     let predBals := ls.foldl (fun b p => setBal b p.1 p.2.bal) st.bals
     let paid := ds.foldl (fun acc d => acc ++ (paidOf st d trigDurs).map (fun p => (d, p.1, p.2))) []
+    let leakNow := (ds.map (fun d => (d, leakOf st d trigDurs))).filter (fun p => p.2 ≠ 0)
+    let leaked := leakNow.foldl (fun acc p => setBal acc p.1 (lookupBal acc p.1 + p.2)) st.leaked
     ({ base with predGs := predGs, predXs := predXs, predBals := predBals, predEpochs := es',
-                 predPaid := sortPaid (mergePaid paid) }, [])
+                 predPaid := sortPaid (mergePaid paid), leakNow := leakNow, leaked := leaked }, bad)
 
 /-! ### per-block monitors on the REAL records -/
 
 def gaugeMons (tag : String) (prev : List GRec) (real : List GRec) : List String :=
   real.foldl (fun out r =>
-    if r.sf then out else
+    if r.sf then
+      -- swap-fee gauge: an epoch books at most what was collected at the previous epoch; the deposit stays non-negative
+      match prev.find? (·.gid = r.gid) with
+      | none => out
+      | some p =>
+        let paid := r.g.distributed - p.g.distributed
+        let ok := decide (0 ≤ r.g.deposit) && decide (0 ≤ paid) && (decide (paid ≤ p.g.deposit) || decide (paid = 0)) &&
+          decide (p.g.deposit - paid ≤ r.g.deposit) &&
+          (decide (r.g.triggered = p.g.triggered + 1) || (decide (r.g.triggered = p.g.triggered) && decide (r.g.deposit = p.g.deposit - paid)))
+        if ok then out else out ++ [s!"MON\t{tag}\tsf_epoch_cap\tgauge={r.gid}"]
+    else
     let cum := gaugeOk r.g &&
       decide (r.g.distributed ≤ (prefixSum r.g.deposit.toNat r.g.total r.g.triggered : Int))
     let o1 := if cum then [] else [s!"MON\t{tag}\tcumulative_cap\tgauge={r.gid}"]
@@ -332,9 +489,14 @@ def custodyMons (tag : String) (st : St) : List String :=
     let gs := (st.gs.filter (·.denom = d)).map (fun r => if r.sf then { r.g with distributed := 0 } else r.g)
     let xs := (extsOf st d).map (·.x)
     let nonSf := (gaugesOf st d).map (·.g)
-    let ok := decide (remGauges gs + remExts xs ≤ lookupBal st.bals d) && nonSf.all gaugeOk
+    -- coins that swap-fee triggers paid without booking them (finding D37, `sf_gauge_leak_counterexample`) are accounted
+    -- for under their own monitor name, so that `custody` stays sharp for every other cause
+    let lk := lookupBal st.leaked d
+    let ok := decide (remGauges gs + remExts xs ≤ lookupBal st.bals d + lk) && nonSf.all gaugeOk
+    let okLeak := decide (lk = 0) || decide (remGauges gs + remExts xs ≤ lookupBal st.bals d)
     let okx := xs.all (fun x => decide (0 ≤ x.avail))
     out ++ (if ok then [] else [s!"MON\t{tag}\tcustody\tdenom={d}"])
+        ++ (if okLeak then [] else [s!"MON\t{tag}\tcustody_sf_leak\tdenom={d} unbooked={lk}"])
         ++ (if okx then [] else [s!"MON\t{tag}\tcustody_ext_overpaid\tdenom={d}"])) []
 
 /-- bank-side epoch cap: what left the module account in this block is covered by the allocations of the
@@ -346,9 +508,86 @@ def outflowMons (tag : String) (st : St) : List String :=
       | some p => if r.g.triggered = p.g.triggered + 1 then (splitAt p.g.deposit.toNat p.g.total p.g.triggered : Int) else 0
       | none => 0))
     let extd := sumL ((extsOf st d).map (fun r =>
-      match st.prevXs.find? (·.eid = r.eid) with | some p => p.x.avail - r.x.avail | none => 0))
-    if lookupBal st.prevBals d - lookupBal st.bals d ≤ allocs + extd then out
-    else out ++ [s!"MON\t{tag}\tepoch_cap\tdenom={d} outflow"]) []
+      match st.prevXs.find? (fun q => q.kind = r.kind && q.eid = r.eid) with | some p => p.x.avail - r.x.avail | none => 0))
+    -- swap-fee gauges: what they booked as distributed; coins arriving from the fee collectors only raise the balance
+    let sfd := sumL ((st.gs.filter (fun r => r.denom = d && r.sf)).map (fun r =>
+      match st.prevGs.find? (·.gid = r.gid) with | some p => r.g.distributed - p.g.distributed | none => 0))
+    let lk := lookupBal st.leakNow d
+    (if lookupBal st.prevBals d - lookupBal st.bals d ≤ allocs + extd + sfd + lk then out
+     else out ++ [s!"MON\t{tag}\tepoch_cap\tdenom={d} outflow"])
+      ++ (if lk = 0 then [] else [s!"MON\t{tag}\tsf_leak\tdenom={d} paid-but-not-booked={lk}"])) []
+
+/-- external programmes, on the REAL records after the block (`prev` = the real records before it):
+`ext_epoch_cap`       the clause as worded: an epoch books at most `AvailableRewards / daysLeft`, nothing is booked otherwise
+`ext_epoch_bound`     the bound PROVED for the code as it is (`ext_share_epoch_bound`, `ext_lend_epoch_bound`)
+`ext_cumulative_cap`  everything booked so far is within the funding, and `AvailableRewards = funding − booked`
+`ext_available_nonneg` `AvailableRewards ≥ 0`
+`ext_schedule`        at most one epoch per block, only when due and active, at most `DurationDays` epochs, next due a day later
+`ext_share_total`     hypothesis of the proved bound: the eligible positions add up to at most the total share -/
+def xMons (tag : String) (st : St) (real : List XRec) : List XRec × List String :=
+  let now := nowSec st
+  real.foldl (fun (acc : List XRec × List String) r =>
+    let key := s!"{r.kind}{r.eid}"
+    match st.prevXs.find? (fun q => q.kind = r.kind && q.eid = r.eid) with
+    | none => (acc.1 ++ [r], acc.2 ++ [s!"BAD\t{tag}\tprogramme {key} unknown"])
+    | some p =>
+      let paid := p.p.avail - r.p.avail
+      let adv := decide (r.p.count = p.p.count + 1)
+      let same := decide (r.p.count = p.p.count)
+      let cap := if adv then ExtReward.capOk p.p paid else same && decide (paid = 0)
+      let xo := st.xouts.find? (fun x => x.kind = r.kind && x.eid = r.eid)
+      let (hyp, bound) := match xo with
+        | none => (true, !adv)
+        | some x =>
+          if !adv then (true, decide (paid = 0))
+          else if r.kind = "B" then
+            (true, ExtReward.accOk x.acc && (if x.acc.tot > 0 ∧ x.daily ≥ 0 then ExtReward.lendBoundOk x.acc.ws x.acc.tot x.daily paid
+                                              else decide (paid = 0)))
+          else
+            let h := decide (x.sumElig ≤ x.total) || decide (x.nElig = 0)
+            (h, if p.p.avail ≤ 0 ∨ x.nElig = 0 then decide (paid = 0)
+                else !h || ExtReward.shareBoundOk p.p x.nElig paid)
+      let cum := p.cum + paid
+      -- a state violation is reported in the block that produces it
+      let cumOk := decide (cum = r.p.total - r.p.avail) && decide (0 ≤ paid) && (decide (cum ≤ r.p.total) || decide (paid = 0))
+      let sched := decide ((r.p.count : Int) ≤ r.p.days) && decide (r.p.total = p.p.total) && decide (r.p.days = p.p.days) &&
+        (if adv then p.p.active && decide (p.p.start < now) && decide (r.p.start = now + ExtReward.DAY) && r.p.active
+         else same && decide (r.p.start = p.p.start) && (r.p.active == p.p.active || (p.p.active && decide (p.p.start < now) && decide ((p.p.count : Int) ≥ p.p.days))))
+      -- a lend programme over its cap: which of the two known causes explains it (both can be present)
+      let lendCause : List String :=
+        if cap || r.kind ≠ "B" then [] else
+        match st.lendIns.find? (·.eid = r.eid) with
+        | none => []
+        | some i =>
+          (if i.env.reward.twa ≠ i.env.reward.dec then [s!"MON\t{tag}\text_lend_value_as_amount\tprog={key} twa={i.env.reward.twa} decimals={i.env.reward.dec}"] else []) ++
+          (match xo with
+           | some x => if sumL x.acc.ws ≠ x.acc.tot * Dec.P then [s!"MON\t{tag}\text_lend_truncated_total\tprog={key} total={x.acc.tot}"] else []
+           | none => [])
+      let out := lendCause ++
+        (if cap then [] else [s!"MON\t{tag}\text_epoch_cap\tprog={key} paid={paid} avail={p.p.avail} daysLeft={p.p.daysLeft}"]) ++
+        (if bound then [] else [s!"MON\t{tag}\text_epoch_bound\tprog={key} paid={paid}"]) ++
+        (if hyp then [] else [s!"MON\t{tag}\text_share_total\tprog={key}"]) ++
+        (if cumOk then [] else [s!"MON\t{tag}\text_cumulative_cap\tprog={key} booked={cum} funding={r.p.total}"]) ++
+        (if ExtReward.availOk r.p || decide (paid = 0) then [] else [s!"MON\t{tag}\text_available_nonneg\tprog={key} avail={r.p.avail}"]) ++
+        (if sched then [] else [s!"MON\t{tag}\text_schedule\tprog={key}"])
+      (acc.1 ++ [{ r with cum := cum }], acc.2 ++ out)) ([], [])
+
+def parsePrice (s : String) : Option Price :=
+  match s.splitOn ":" with
+  | [f, a, t, d] => do
+    let f ← parseBool? f; let a ← parseBool? a; let t ← parseInt? t; let d ← parseInt? d
+    pure { found := f, active := a, twa := t, dec := d }
+  | _ => none
+
+def parseUser : List String → Option (User × Nat)
+  | [a, c, r] => do let a ← parseInt? a; let c ← parseInt? c; let r ← parseNat? r; pure ({ amt := a, created := c }, r)
+  | _ => none
+
+def parseBorrower : List String → Option (Borrower × Nat)
+  | [l, a, f, x, y, r] => do
+    let l ← parseBool? l; let a ← parseInt? a; let f ← parseBool? f; let x ← parseInt? x; let y ← parseInt? y; let r ← parseNat? r
+    pure ({ liquidated := l, amt := a, farmed := f, x := x, y := y }, r)
+  | _ => none
 
 /-! ### line handler -/
 
@@ -422,21 +661,22 @@ def handle (st : St) (seq : String) (f : List String) : St × List String :=
     match parseInt? amount with
     | some a => ({ st with bals := setBal st.bals denom (lookupBal st.bals denom + a) }, [])
     | none => (st, [s!"BAD\t{seq}\tfund"])
-  | ["gauge.extnew", eid, denom, amount, funds, outcome] =>
-    match parseNat? eid, parseInt? amount, parseInt? funds with
-    | some eid, some a, some funds =>
-      let l := ledgerOf st denom
-      let l' := step l (.createExt a funds)
-      let mok := decide (l'.exts.length = l.exts.length + 1)
+  | ["gauge.xnew", kind, eid, denom, amount, days, minLock, now, first, funds, aux, outcome] =>
+    match parseNat? eid, parseInt? amount, parseInt? days, parseInt? minLock, parseInt? now, parseInt? first, parseInt? funds, parseBool? aux with
+    | some eid, some a, some days, some minLock, some now, some first, some funds, some aux =>
+      let mok := ExtReward.createGuard a days funds aux
       let d := if mok = (outcome = "ok") then [] else [s!"DIFF\t{seq}\tmodel accepted={mok}\timpl={outcome}"]
+      -- the first due time is part of the code being modelled: 86400 s, but 84600 s for lend programmes
+      let firstOk := decide (first = (if kind = "B" then ExtReward.LENDFIRST else ExtReward.DAY))
+      let d := d ++ (if firstOk then [] else [s!"BAD\t{seq}\tfirst due offset"])
       if outcome = "ok" then
-        ({ st with xs := st.xs ++ [{ eid := eid, denom := denom, x := { avail := a, active := true } }],
+        ({ st with xs := st.xs ++ [{ kind := kind, eid := eid, denom := denom, p := ExtReward.newProg a days minLock now first }],
                    bals := setBal st.bals denom (lookupBal st.bals denom + a) }, d)
       else (st, d)
-    | _, _, _ => (st, [s!"BAD\t{seq}\textnew"])
+    | _, _, _, _, _, _, _, _ => (st, [s!"BAD\t{seq}\txnew"])
   | ["gauge.block", now] =>
     match parseInt? now with
-    | some now => ({ st with now := now, dists := [], extIns := [], extOffs := [] }, [])
+    | some now => ({ st with now := now, dists := [], sfx := [], leakNow := [], shareIns := [], lendIns := [], xouts := [] }, [])
     | none => (st, [s!"BAD\t{seq}\tblock"])
   | ["gauge.dist", gid, alloc, mode, mpos, cpos, outcome, recv, rewards] =>
     match parseNat? gid, parseInt? alloc, parseFarmers mpos cpos, csvNats recv, csvInts rewards with
@@ -449,27 +689,33 @@ def handle (st : St) (seq : String) (f : List String) : St × List String :=
       let mon := if outcome = "ok" then shareMons seq a el rewards else []
       -- the gauge's own allocation must be the one the harness asked the share computation about
       let da := match st.gs.find? (·.gid = gid) with
-        | some r => match allocation r.g with
+        | some r =>
+          if r.sf then (if r.g.deposit = a then [] else [s!"DIFF\t{seq}\tswap-fee gauge deposit model={r.g.deposit}\timpl={a}"]) else
+          match allocation r.g with
           | .ok (some a') => if a' = a then [] else [s!"DIFF\t{seq}\tallocation model={a'}\timpl={a}"]
           | _ => [s!"DIFF\t{seq}\tallocation model=none\timpl={a}"]
         | none => [s!"BAD\t{seq}\tdist for unknown gauge"]
       let dd : DistData := if outcome = "err" then .err else if outcome = "panic" then .ok [-1] else .ok rewards
       ({ st with dists := st.dists ++ [{ gid := gid, d := dd, recv := recv }] }, d ++ mon ++ da)
     | _, _, _, _, _ => (st, [s!"BAD\t{seq}\tdist"])
-  | ["gauge.extpay", eid, avail, days, total, nets, recv, paid] =>
-    match parseNat? eid, parseInt? avail, parseInt? days, parseInt? total, csvInts nets, csvNats recv, csvInts paid with
-    | some eid, some avail, some days, some total, some nets, some recv, some paid =>
-      let m := extPays avail days total nets
-      let d := if m = paid then [] else [s!"DIFF\t{seq}\text pays model={showIntList m}\timpl={showIntList paid}"]
-      let da := match st.xs.find? (·.eid = eid) with
-        | some r => if r.x.avail = avail then [] else [s!"DIFF\t{seq}\text avail model={r.x.avail}\timpl={avail}"]
-        | none => [s!"BAD\t{seq}\textpay for unknown programme"]
-      ({ st with extIns := st.extIns ++ [{ eid := eid, pays := m, recv := recv }] }, d ++ da)
-    | _, _, _, _, _, _, _ => (st, [s!"BAD\t{seq}\textpay"])
-  | ["gauge.extoff", eid] =>
-    match parseNat? eid with
-    | some eid => ({ st with extOffs := st.extOffs ++ [eid] }, [])
-    | none => (st, [s!"BAD\t{seq}\textoff"])
+  | ["gauge.sfxfer", gid, outcome, amount] =>
+    match parseNat? gid, parseNat? amount with
+    | some gid, some amount =>
+      ({ st with sfx := st.sfx ++ [(gid, if outcome = "ok" then Xfer.ok amount else Xfer.err)] }, [])
+    | _, _ => (st, [s!"BAD\t{seq}\tsfxfer"])
+  | ["gauge.xshare", kind, eid, halt, total, users] =>
+    match parseNat? eid, parseBool? halt, parseInt? total, (if users = "-" || users = "" then some [] else (users.splitOn ",").mapM (fun e => parseUser (e.splitOn ":"))) with
+    | some eid, some halt, some total, some us =>
+      ({ st with shareIns := st.shareIns ++ [{ kind := kind, eid := eid, env := { halt := halt, total := total, users := us.map (·.1) }, recv := us.map (·.2) }] }, [])
+    | _, _, _, _ => (st, [s!"BAD\t{seq}\txshare"])
+  | ["gauge.xlend", eid, halt, stats, asset, quote, base, borrowers, rewardAsset, reward] =>
+    match parseNat? eid, parseBool? halt, parseBool? stats, parsePrice asset, parsePrice quote, parsePrice base,
+          recList borrowers parseBorrower, parseBool? rewardAsset, parsePrice reward with
+    | some eid, some halt, some stats, some asset, some quote, some base, some bs, some ra, some reward =>
+      let env : LendEnv := { halt := halt, stats := stats, asset := asset, quote := quote, base := base, borrowers := bs.map (·.1),
+                             rewardAsset := ra, reward := reward }
+      ({ st with lendIns := st.lendIns ++ [{ eid := eid, env := env, recv := bs.map (·.2) }] }, [])
+    | _, _, _, _, _, _, _, _, _ => (st, [s!"BAD\t{seq}\txlend"])
   | ["gauge.run", _] =>
     let (st', out) := runBlock st
     (st', out.map (fun o => o.replace "\t-\t" s!"\t{seq}\t"))
@@ -484,7 +730,11 @@ def handle (st : St) (seq : String) (f : List String) : St × List String :=
     match recList recs parseG with
     | some real =>
       let cmp := real.foldl (fun out r =>
-        if r.sf then out else
+        if r.sf then
+          match st.predGs.find? (·.gid = r.gid) with
+          | some p => if toSf p = toSf r then out else out ++ [s!"DIFF\t{seq}\tswap-fee gauge model={showG p}\timpl={showG r}"]
+          | none => out ++ [s!"DIFF\t{seq}\tswap-fee gauge {r.gid} unknown to the model"]
+        else
         match st.predGs.find? (·.gid = r.gid) with
         | some p => if p.g = r.g then out else out ++ [s!"DIFF\t{seq}\tgauge model={showG p}\timpl={showG r}"]
         | none => out ++ [s!"DIFF\t{seq}\tgauge {r.gid} unknown to the model"]) []
@@ -493,13 +743,15 @@ def handle (st : St) (seq : String) (f : List String) : St × List String :=
       let mons := gaugeMons seq st.prevGs real
       ({ st with gs := real }, cmp ++ missing ++ mons)
     | none => (st, [s!"BAD\t{seq}\tgauges"])
-  | ["gauge.exts", recs] =>
+  | ["gauge.xprogs", recs] =>
     match recList recs parseX with
     | some real =>
-      let d := if real = st.predXs then [] else
-        [s!"DIFF\t{seq}\texts model={";".intercalate (st.predXs.map showX)}\timpl={";".intercalate (real.map showX)}"]
-      ({ st with xs := real }, d)
-    | none => (st, [s!"BAD\t{seq}\texts"])
+      let pred := sortXs st.predXs
+      let d := if (sortXs real).map showX = pred.map showX then [] else
+        [s!"DIFF\t{seq}\tprogrammes model={";".intercalate (pred.map showX)}\timpl={";".intercalate (real.map showX)}"]
+      let (real', mons) := xMons seq st real
+      ({ st with xs := real' }, d ++ mons)
+    | none => (st, [s!"BAD\t{seq}\txprogs"])
   | ["gauge.bals", recs] =>
     match recList recs parseBalRec with
     | some real =>
